@@ -49,6 +49,11 @@ def refOpenBody (asn hold bgpId : Nat) (params : List (List Cap)) : Bytes :=
   be8 4 ++ be16 (if asn > 65535 then 23456 else asn) ++ be16 hold ++ be32 bgpId ++
     be8 (params.flatMap encParam).length ++ params.flatMap encParam
 
+/-- an ADD-PATH entry the decoder has a name for: a known address family and Send/Receive 1..3 (RFC 7911); entries
+    naming anything else are skipped by the receiver, the ones around them are not affected -/
+def addPathKnown (t : Nat × Nat × Nat) : Bool :=
+  decide ((t.1, t.2.1) ∈ afiSafiKnown ∧ 1 ≤ t.2.2 ∧ t.2.2 ≤ 3)
+
 /-- what a decoder must report for a capability list, in yabgp's dictionary shape -/
 def applyRef (st : Nat × CapaDict) : Cap → Nat × CapaDict
   | .mp afi safi => (st.1, { st.2 with afiSafi := some (st.2.afiSafi.getD [] ++ [(afi, safi)]) })
@@ -58,7 +63,7 @@ def applyRef (st : Nat × CapaDict) : Cap → Nat × CapaDict
   | .gracefulRestart _ => (st.1, { st.2 with gracefulRestart := true })
   | .ciscoMultiSession _ => (st.1, { st.2 with ciscoMultiSession := true })
   | .as4 asn => (asn, { st.2 with fourBytesAs := true })
-  | .addPath l => (st.1, { st.2 with addPath := some (st.2.addPath.getD [] ++ l) })
+  | .addPath l => (st.1, { st.2 with addPath := some (st.2.addPath.getD [] ++ l.filter addPathKnown) })
   | .llgr l => (st.1, { st.2 with llgr := some (l.map fun t => (t.1, t.2.1, t.2.2.2)) })
   | .extNextHop l => (st.1, { st.2 with extNexthop := some l })
   | .unknown c b => (st.1, { st.2 with unknown := unknownSet st.2.unknown c b })
@@ -67,12 +72,13 @@ def expectOpen (asn hold bgpId : Nat) (params : List (List Cap)) : OpenMsg :=
   let st := params.flatten.foldl applyRef ((if asn > 65535 then 23456 else asn), {})
   { version := 4, asn := st.1, holdTime := hold, bgpId := bgpId, caps := st.2 }
 
-/-- well-formedness of a capability for the reference encoder (field ranges, known families for
-    add-path as the property says, unknown codes really unknown, value fits its length octet) -/
+/-- well-formedness of a capability for the reference encoder (field ranges - an ADD-PATH capability may list any
+    families and Send/Receive values, the expectation above keeps the known ones -, unknown codes really unknown, value
+    fits its length octet) -/
 def CapOk : Cap → Prop
   | .mp afi safi => afi < 65536 ∧ safi < 256
   | .as4 asn => asn < 4294967296
-  | .addPath l => (∀ t ∈ l, (t.1, t.2.1) ∈ afiSafiKnown ∧ 1 ≤ t.2.2 ∧ t.2.2 ≤ 3) ∧ l.length < 64
+  | .addPath l => (∀ t ∈ l, t.1 < 65536 ∧ t.2.1 < 256 ∧ t.2.2 < 256) ∧ l.length < 64
   | .llgr l => (∀ t ∈ l, t.1 < 65536 ∧ t.2.1 < 256 ∧ t.2.2.1 < 256 ∧ t.2.2.2 < 16777216) ∧ l.length < 37
   | .extNextHop l => (∀ t ∈ l, t.1 < 65536 ∧ t.2.1 < 65536 ∧ t.2.2 < 65536) ∧ l.length < 43
   | .unknown c b => c < 256 ∧ c ∉ [65, 1, 2, 128, 64, 131, 70, 69, 71, 5] ∧ b.length < 256
